@@ -9,6 +9,9 @@ checks = {
  "C03": dict(cat="model_checking", engine="vsched+explore", tech=MC, ref="DESIGN.md §5 C03",
    text="every schedule of the real hybridbuffer (Accept/Destroy caller, feeder goroutine, scripted consumer) and every consumer behaviour script (confirm, keep + hand back, stall, finish early) within the deviation bound, on a real scratch directory, over 1-3 generations and a grid of memory window x queue capacity x size limit x usable/unusable directory; conservation ledger, FIFO order, non-blocking Accept (deadlock detection), memory and disk bounds",
    note="bounded: <=5 chunks per generation, <=3 generations, deviation bound 1-3; memory bound asserted only when every Accept was issued at quiescence"),
+ "C13": dict(cat="exploration", engine="seq", tech="bounded-exhaustive enumeration of inputs against an independent integer reference model (all fractions up to 6/9 digits, all offsets, all short strings over a 9-symbol alphabet, all one-edit neighbours)", ref="DESIGN.md §5 C13",
+   text="complete enumeration of the stated finite input domains through the exported parseTime transform; exactness to the nanosecond against days-from-civil integer arithmetic; totality (no panic) and error+count+fallback for strings not shaped like a date-time",
+   note="valid timestamps outside the enumerated date/offset/fraction grid are not covered; leap second and non-digit digit positions only checked for totality"),
 }
 na = []
 order = ["C%02d" % i for i in range(1, 20)]
@@ -25,6 +28,8 @@ manifest = {
  "engines": [
   {"name": "vsched+explore", "path": "rt/vsched, instr, explore", "serves_properties": [k for k in order if k in checks and checks[k]["engine"] == "vsched+explore"],
    "kind_free_text": "stateless model checker for the real Go code: a type-aware AST instrumenter routes channel/select/go/sync/atomic/time/signal operations to a cooperative scheduler (real primitives kept, gates release an operation only when it cannot block); DFS over scheduler and environment choices with iterative deviation bounding, replay with divergence detection, 16 worker processes"},
+  {"name": "seq", "path": "seq, harness/seq_*", "serves_properties": [k for k in order if k in checks and checks[k]["engine"] == "seq"],
+   "kind_free_text": "bounded-exhaustive enumerator: deterministic case enumeration sharded over 16 worker processes, panic capture and worker-death attribution to the case in flight, reference models as oracles, single-case replay"},
  ],
  "checks": [],
  "not_applicable": na,
